@@ -36,6 +36,8 @@ def load_modules():
 
 
 def _verify_key(key):
+    if key.startswith("lemma:"):
+        return api.LEMMAS[key[6:]].verify()
     c = api.REGISTRY[key]
     try:
         rep = api.verify(c)
@@ -257,7 +259,7 @@ def run_property(pid, tier="quick", seed=0, jobs=None, level="proof", replay=Non
     contracts = [c for c in api.REGISTRY.values() if c.prop == pid]
     jobs = jobs or min(16, os.cpu_count() or 4)
     engine_items = [(n, i) for n, m in propmods.items() for i in range(len(getattr(m, "ENGINE_CHECKS", [])))]
-    keys = [c.key for c in contracts]
+    keys = [c.key for c in contracts] + [l.key for l in api.LEMMAS.values() if l.prop == pid]
     with mp.get_context("fork").Pool(jobs) as pool:
         a1 = pool.map_async(_verify_key, keys, chunksize=1)
         a2 = pool.map_async(_run_engine_check, engine_items, chunksize=1)
